@@ -334,7 +334,8 @@ func exec(c proto.Case, o *proto.Out) []string {
 				outs[i] = "bad-op"
 				break
 			}
-			outs[i] = st.rl.reload(g == "1", eps, o)
+			now, _ := kv("now")
+			outs[i] = st.rl.reload(g == "1", eps, now == "1", o)
 		case "fail":
 			ps, ok1 := kv("put")
 			ds, ok2 := kv("del")
